@@ -231,6 +231,14 @@ def run_case(case):
     # 5. other text formats
     compare("aeon-text", SuccessionDiagram.from_rules(bn.to_aeon(), format="aeon"), ident)
     compare("sbml-text", SuccessionDiagram.from_rules(bn.to_sbml(), format="sbml"), ident)
+    # 5b. the same network with its identity inputs written as *free* inputs (no update function), as aeon / sbml files do
+    free_txt = common.free_inputs(random.Random(case["perm_seed"] + 1), txt)
+    if free_txt != txt:
+        fbn = BooleanNetwork.from_bnet(free_txt)
+        if sorted(fbn.variable_names()) == sorted(names):
+            compare("free-inputs-bnet", SuccessionDiagram.from_rules(free_txt), ident)
+            compare("free-inputs-aeon", SuccessionDiagram.from_rules(fbn.to_aeon(), format="aeon"), ident)
+            compare("free-inputs-sbml", SuccessionDiagram.from_rules(fbn.to_sbml(), format="sbml"), ident)
     # 6. sanitization
     if case.get("weird"):
         from biobalm.petri_net_translation import sanitize_network_names
